@@ -224,6 +224,8 @@ class C07(Prop):
         kinds = []
         if any(re.match(r"^r\d+:", o) for o in ops):
             kinds.append("reset")
+        if any(re.match(r"^r\d+:", o) and ("f" + o[1:].split(":")[0]) in ops[:i] for i, o in enumerate(ops)):
+            kinds.append("reset>fin")
         if any(re.match(r"^x\d+:", o) for o in ops):
             kinds.append("stop")
         for k in ("stream:H3_MESSAGE_ERROR", "stream:H3_REQUEST_INCOMPLETE", "toobig"):
@@ -415,7 +417,7 @@ class C07(Prop):
         use_over = rng.random() < 0.3
         mfs = 400
         kinds = ["none", "reset", "reset", "resetend", "resetfin", "stop", "malformed", "malformed", "finfirst", "badtrailers"] + \
-                (["oversized", "bigtrailers"] + (["oversizedstop"] if server else []) if use_over else [])
+                (["oversized", "bigtrailers"] + (["oversizedstop", "oversizedstop"] if server else []) if use_over else [])
         chosen = [rng.choice(kinds) for _ in range(k)]
         if all(c != "none" for c in chosen):
             chosen[rng.randrange(k)] = "none"
